@@ -134,6 +134,10 @@ class Seq:
 def index_const_list(vals, k):
     k = simp_int(k)
     if isinstance(k, int):
+        if not (-len(vals) <= k < len(vals)):
+            # read outside a literal list: only reachable as the dead branch of a conditional element
+            # (`ite(k == n, appended, old[k])`); in-bounds access of executed subscripts is a separate `safe:index` obligation
+            return fresh_int("oob")
         return vals[k]
     if not vals:
         return fresh_int("oob")
